@@ -34,7 +34,7 @@ META['explanation'] += ' ' + "R8: a slice of the input bounded by a declared len
 
 META['explanation'] += ' ' + 'R4: the byte level primitives of ParserBinary are evaluated with the real struct module around every boundary. R7 follows chains of helper methods. R11: the identification string ends with its line feed, whatever follows (shared with C07.R6).'
 
-META['explanation'] += ' ' + 'R10 also: the ASN.1 decoder is not called in its strict mode (which refuses bytes after the value). R12: a frame whose parser reports a constant size pins its declared length to that size.'
+META['explanation'] += ' ' + 'R10 also: the ASN.1 decoder is not called in its strict mode (which refuses bytes after the value). R12: a frame whose parser reports a constant size pins its declared length to that size. R13: the length of the whole buffer is compared only to decide that data is missing or left over.'
 
 SIZE_ARGS = {
     'parse_raw': ['size'], 'parse_mpint': ['mpint_length'], 'parse_numeric_array': ['item_num'],
@@ -63,6 +63,7 @@ def check(ctx, report):
     from .c07 import banner
     banner(ctx, report, RULE='C03.R11')
     declared_constant_lengths(ctx, report)
+    buffer_length_decisions(ctx, report)
     library_framing(ctx, report)
     entry_points(ctx, report)
     ownership(ctx, report)
@@ -1572,6 +1573,57 @@ def declared_windows(ctx, report):
 
 
 # ---- R10: messages framed by a library decoder ---------------------------------------------------------------------------
+
+def buffer_length_decisions(ctx, report, RULE='C03.R13'):
+    """What a frame is parsed into depends on its own n bytes only: the same frame followed by other data gives the same object
+    and the same n.  The one quantity through which the bytes *after* the frame reach the parser is the length of the whole
+    buffer.  ``len(parsable)`` of a parse function may be compared only to decide that data is missing or left over (the test of
+    an ``if`` that raises NotEnoughData / TooMuchData); every other comparison that reads it - a look-ahead that asks whether a
+    vector "lasts until the end", a branch on what is left - decides differently for the same frame in a longer buffer.
+    Functions with a parameter ``parsable`` are read; comparisons against an item's own length while selecting candidates
+    (``len(code) <= len(parsable)``, a filter that cannot accept more than the buffer holds) are the reviewed exception."""
+    report.rule(RULE, 'the length of the whole buffer is compared only to decide that data is missing or left over (a frame is parsed the same whatever follows it)')
+    n = 0
+    for f in ctx.model.functions():
+        if f.module.external:
+            continue
+        params = [a.arg for a in f.node.args.args + f.node.args.kwonlyargs]
+        if 'parsable' not in params:
+            continue
+        n += 1
+        report.touch(f)
+        parents = {}
+        for x in ast.walk(f.node):
+            for ch in ast.iter_child_nodes(x):
+                parents[id(ch)] = x
+
+        def mentions(e):
+            return any(isinstance(y, ast.Call) and isinstance(y.func, ast.Name) and y.func.id == 'len' and len(y.args) == 1 and
+                       isinstance(y.args[0], ast.Name) and y.args[0].id == 'parsable' for y in ast.walk(e))
+        for x in ast.walk(f.node):
+            if not (isinstance(x, ast.Compare) and mentions(x)):
+                continue
+            # the statement the comparison decides
+            p, top = x, x
+            while id(p) in parents and not isinstance(parents[id(p)], ast.stmt):
+                p = parents[id(p)]
+            st = parents.get(id(p))
+            ok = False
+            if isinstance(st, ast.If) and any(y is x for y in ast.walk(st.test)):
+                raised = [ast.unparse(r.exc).split('(')[0] for b in st.body for r in ast.walk(b) if isinstance(r, ast.Raise) and r.exc is not None]
+                raised += [ast.unparse(c.args[0]).split('(')[0] for b in st.body for c in ast.walk(b)
+                           if isinstance(c, ast.Call) and ast.unparse(c.func).endswith('raise_from') and c.args]
+                ok = bool(raised) and all(r in ('NotEnoughData', 'TooMuchData') for r in raised)
+            if not ok and isinstance(parents.get(id(x)), ast.comprehension) and len(x.ops) == 1 and isinstance(x.ops[0], (ast.LtE, ast.Lt)) and \
+                    mentions(x.comparators[0]) and not mentions(x.left):
+                ok = True       # candidates no longer than the buffer: a longer buffer admits more candidates only for a longer frame
+            if not ok:
+                report.add(RULE, '%s@buffer-length[%s]' % (f.construct, ast.unparse(x)[:50]),
+                           'the decision `%s` reads the length of the whole buffer: the same frame followed by other bytes is parsed differently '
+                           '(the result depends on bytes beyond the n that are reported)' % ast.unparse(x)[:90])
+    report.count(RULE, n)
+    report.floor(RULE, 150, 'functions that take the buffer')
+
 
 def declared_constant_lengths(ctx, report, RULE='C03.R12'):
     """A frame whose parser reports a constant length although the frame declares its length on the wire: the declared length has to
